@@ -55,7 +55,7 @@ func composedKind(k simapi.ObjKey) bool {
 func (prop) Run(t *testing.T, s *sim.Sim, res *runner.Result) {
 	var fn *simfn.Transport
 	xrworld.Run(s, res, xrworld.Hooks{
-		Opts:   func(t *sim.Tape) xrworld.Opts { return xrworld.Opts{FnFaults: true, LagComposed: t.Next(2) == 1} },
+		Opts:   func(t *sim.Tape) xrworld.Opts { lag := t.Next(2) == 1; return xrworld.Opts{FnFaults: true, LagComposed: lag, LagManual: lag && t.Next(2) == 1} },
 		Params: xrworld.DrawParams{Fatal: true, Requirements: true},
 		Faults: []sim.Outcome{sim.ErrBefore, sim.ErrAfter, sim.Conflict, sim.Stale},
 		Setup: func(w *xrworld.W, wl *xrworld.Workload) error {
